@@ -6,7 +6,9 @@
 //	strings    (clean s) (r) | (split s) (parts) | (trimslash s) (r) | (hasprefix s p) (0|1)
 //	           | (trimprefix s p) (r) | (rtype cal|card prefix path) (n)
 //	serve      (serve cal|card <hprefix> <backend> <req> <layout>) (obs (trace (op arg)...) status (hrefs ...) extra)
-//	discovery  (disc cal|card <hprefix> <backend> <start>) (found <principal> <home> (colls ...) (objs ...)) | (fail <step>)
+//	discovery  (disc cal|card <hprefix> <backend> <start> <hier>) (found <principal> <home> (colls ...) (objs ...)) | (fail <step>)
+//	           <hier> = (h (ps...) <prefix-trailing-slash> <user> <uslash> <home> <hslash> (c <name> <slash> n d m (o <name> l t e)...)...)
+//	                  | (nohier)      the layout the backend holds, when it is one the property quantifies over
 //
 // <backend> = (backend <principal> <homeset> (coll <path> n d m (obj <path> l t e)...)...)
 // <req>     = (req <method> <path> 0|1|inf good|alt|bad|(mg href...))
@@ -934,6 +936,51 @@ func genServe(emit func(string)) {
 	}
 }
 
+// hcoll / hobj: a layout by names, as Coq's [hier] has it
+type hobj struct {
+	name    string
+	l, t, e bool
+}
+
+type hcoll struct {
+	name           string
+	slash, n, d, m bool
+	objs           []hobj
+}
+
+type hier struct {
+	ps             []string
+	u, h           string
+	uslash, hslash bool
+	colls          []hcoll
+}
+
+func (h *hier) world() *world {
+	w := &world{principal: join(append(append([]string{}, h.ps...), h.u)) + tslash(h.uslash)}
+	w.home = join(append(append([]string{}, h.ps...), h.u, h.h)) + tslash(h.hslash)
+	for _, c := range h.colls {
+		cp := join(append(append([]string{}, h.ps...), h.u, h.h, c.name))
+		col := collection{path: cp + tslash(c.slash), n: c.n, d: c.d, m: c.m}
+		for _, o := range c.objs {
+			col.objs = append(col.objs, object{path: cp + "/" + o.name, l: o.l, t: o.t, e: o.e})
+		}
+		w.colls = append(w.colls, col)
+	}
+	return w
+}
+
+func (h *hier) sx(ptrail bool) string {
+	items := []string{"h", strList(h.ps), hx.B(ptrail), hx.S(h.u), hx.B(h.uslash), hx.S(h.h), hx.B(h.hslash)}
+	for _, c := range h.colls {
+		ci := []string{"c", hx.S(c.name), hx.B(c.slash), hx.B(c.n), hx.B(c.d), hx.B(c.m)}
+		for _, o := range c.objs {
+			ci = append(ci, hx.L("o", hx.S(o.name), hx.B(o.l), hx.B(o.t), hx.B(o.e)))
+		}
+		items = append(items, hx.L(ci...))
+	}
+	return hx.L(items...)
+}
+
 func genDisc(emit func(string)) {
 	rng := hx.NewRand(hx.Seed() + 77)
 	thorough := hx.Tier() == "thorough"
@@ -946,30 +993,126 @@ func genDisc(emit func(string)) {
 	for i := 0; i < extra; i++ {
 		pfx = append(pfx, more[rng.Intn(len(more))])
 	}
+	wk := func(srv string) string {
+		if srv == "card" {
+			return "/.well-known/carddav"
+		}
+		return "/.well-known/caldav"
+	}
+	starts := func(srv string, h *hier, w *world) []string {
+		return []string{wk(srv), w.principal, reqPath(h.ps, nil, false), reqPath(h.ps, nil, true)}
+	}
 	for pi, ps := range pfx {
 		for _, pt := range []bool{false, true} {
 			for _, srv := range []string{"cal", "card"} {
 				for nc := 0; nc <= 3; nc++ {
 					no := (pi + nc) % 4
-					cs := []string{"c1", "%41", "x y"}[:nc]
-					os := []string{"o1.ics", "é", "..x"}[:no]
-					u, h := "u", "h"
+					h := &hier{ps: ps, u: "u", h: "h", uslash: (pi+nc)%3 != 0, hslash: (pi+nc)%3 != 1}
 					if (pi+nc)%2 == 1 {
-						u, h = "a b", "%2F"
+						h.u, h.h = "a b", "%2F"
 					}
-					w := mkWorld(ps, u, h, cs, os, nc%2 == 0, 0)
-					for ci := range w.colls {
-						for oi := range w.colls[ci].objs {
-							w.colls[ci].objs[oi].l = true // the client's listing needs a content length
+					for ci, cn := range []string{"c1", "%41", "x y"}[:nc] {
+						c := hcoll{name: cn, slash: (nc+ci)%2 == 0, n: ci&1 != 0, d: (pi+ci)&1 != 0, m: (pi+ci)&2 != 0}
+						for oi, on := range []string{"o1.ics", "é", "..x"}[:no] {
+							// the client's listing needs a content length
+							c.objs = append(c.objs, hobj{name: on, l: true, t: (pi+oi)&1 != 0, e: (ci+oi)&1 != 0})
 						}
+						h.colls = append(h.colls, c)
 					}
-					starts := []string{"/.well-known/caldav", w.principal, reqPath(ps, nil, false), reqPath(ps, nil, true)}
-					if srv == "card" {
-						starts[0] = "/.well-known/carddav"
+					w := h.world()
+					for _, st := range starts(srv, h, w) {
+						emit(hx.L("disc", srv, hx.S(join(ps)+tslash(pt)), worldSx(w), hx.S(st), h.sx(pt)))
 					}
-					for _, st := range starts {
-						emit(hx.L("disc", srv, hx.S(join(ps)+tslash(pt)), worldSx(w), hx.S(st)))
-					}
+				}
+			}
+		}
+	}
+	// seeded random layouts: random segment bytes, 0-4 collections x 0-4 objects
+	n := 300
+	if thorough {
+		n = 4000
+	}
+	segPieces := []string{"a", "b", "dav", " ", "%", "41", "é", ".", "..", "x", "~", "+", "&", ";", "=", "?", "#"}
+	randSeg := func() string {
+		for {
+			var sb strings.Builder
+			for k := 1 + rng.Intn(3); k > 0; k-- {
+				sb.WriteString(rng.Pick(segPieces))
+			}
+			if s := sb.String(); s != "." && s != ".." {
+				return s
+			}
+		}
+	}
+	distinct := func(k int) []string {
+		seen := map[string]bool{}
+		var out []string
+		for len(out) < k {
+			if s := randSeg(); !seen[s] {
+				seen[s] = true
+				out = append(out, s)
+			}
+		}
+		return out
+	}
+	for i := 0; i < n; i++ {
+		h := &hier{u: randSeg(), h: randSeg(), uslash: rng.Bool(), hslash: rng.Bool()}
+		for k := rng.Intn(4); k > 0; k-- {
+			h.ps = append(h.ps, randSeg())
+		}
+		for _, cn := range distinct(rng.Intn(5)) {
+			c := hcoll{name: cn, slash: rng.Bool(), n: rng.Bool(), d: rng.Bool(), m: rng.Bool()}
+			for _, on := range distinct(rng.Intn(5)) {
+				c.objs = append(c.objs, hobj{name: on, l: true, t: rng.Bool(), e: rng.Bool()})
+			}
+			h.colls = append(h.colls, c)
+		}
+		srv := rng.Pick([]string{"cal", "card"})
+		pt := rng.Bool()
+		w := h.world()
+		st := rng.Pick(starts(srv, h, w))
+		emit(hx.L("disc", srv, hx.S(join(h.ps)+tslash(pt)), worldSx(w), hx.S(st), h.sx(pt)))
+	}
+	// outside the quantifier (model faithfulness only): objects without a length, duplicate
+	// collections, a principal or home set that is not where the prefix puts it, other start points
+	for _, srv := range []string{"cal", "card"} {
+		for _, hp := range []string{"", "/dav", "/dav/"} {
+			ps := []string{"dav"}
+			if hp == "" {
+				ps = nil
+			}
+			base := func() *hier {
+				return &hier{ps: ps, u: "u", h: "h", uslash: true, hslash: true, colls: []hcoll{
+					{name: "c1", n: true, objs: []hobj{{name: "o1", l: true}, {name: "o2", l: true, e: true}}},
+					{name: "c2", slash: true, d: true, objs: []hobj{{name: "o1", l: true, t: true}}}}}
+			}
+			var ws []*world
+			w := base().world()
+			w.colls[0].objs[1].l = false
+			ws = append(ws, w)
+			w = base().world()
+			w.colls = append(w.colls, w.colls[0])
+			ws = append(ws, w)
+			w = base().world()
+			w.principal = join(ps) + "/u/h/"
+			ws = append(ws, w)
+			w = base().world()
+			w.home = join(ps) + "/elsewhere/h/"
+			ws = append(ws, w)
+			w = base().world()
+			w.home = join(ps) + "/u/"
+			ws = append(ws, w)
+			w = base().world()
+			w.colls[1].path = join(ps) + "/u/c2"
+			ws = append(ws, w)
+			w = base().world()
+			w.principal = "/other/u/"
+			ws = append(ws, w)
+			ws = append(ws, base().world())
+			for _, w := range ws {
+				for _, st := range []string{wk(srv), w.principal, w.home, reqPath(ps, nil, false), w.colls[0].path,
+					w.colls[0].objs[0].path, "/nowhere/at/all/x/y/z", join(ps) + "/stranger", join(ps) + "/u/h/missing", "/"} {
+					emit(hx.L("disc", srv, hx.S(hp), worldSx(w), hx.S(st), hx.L("nohier")))
 				}
 			}
 		}
